@@ -3,9 +3,9 @@ package monitors
 import (
 	"context"
 	"crypto/tls"
-	"log/slog"
 	"encoding/binary"
 	"fmt"
+	"log/slog"
 	"math/rand/v2"
 	"net"
 	"net/netip"
@@ -803,7 +803,11 @@ func init() {
 			{loop: "server.runNTSKEServerQUIC", name: "ntske-quic-server(SCION)", kinds: "ntskequic", inputs: c08SCIONInputs(14460), send: udpTo(srvIP, 14460),
 				sentinel: func(e *c08Env) bool { return c08QUICSentinel(e) }},
 			{loop: "server.runNTSKEServerTLS", name: "ntske-tls-server", kinds: "ntske", inputs: c08NTSKEInputs, send: c08SendTLS("ntske/1"),
-				sentinel: func(e *c08Env) bool { c08TLSWG.Wait(); d, err := fetchNTS(e.srv); return err == nil && len(d.Cookie) == 8 }},
+				sentinel: func(e *c08Env) bool {
+					c08TLSWG.Wait()
+					d, err := fetchNTS(e.srv)
+					return err == nil && len(d.Cookie) == 8
+				}},
 		}
 		for _, ep := range eps {
 			if r.Only() != "" && !strings.HasPrefix(r.Only(), ep.name) && !strings.Contains(ep.name, "listener") {
